@@ -26,6 +26,10 @@ func emit(tag int, a int, b int) {
 	fmt.Println(tag, a, b)
 }
 
+func emitf(tag int, v float64) {
+	fmt.Println(tag, v)
+}
+
 func bump(v int) int {
 	return v + 1000
 }
@@ -63,6 +67,70 @@ func (g *scGen) name() string         { return core.Pick(g.r, []string{"x", "y"}
 func (g *scGen) emit(ind int) {
 	g.tag++
 	g.line(ind, "emit(%d, x, y)", g.tag)
+}
+
+// typedSegment: a name declared again in an inner block with another type than the loop variable, init
+// variable or parameter of that name. The new variable is a new variable: it takes its type from its own
+// initialiser (shown by arithmetic whose result depends on the type), and the outer one is untouched.
+func (g *scGen) typedSegment(ind int) {
+	n := core.Pick(g.r, []string{"x", "y", "v"})
+	g.tag++
+	t := g.tag
+	switch g.r.Intn(8) {
+	case 0:
+		g.line(ind, "for _, %s := range []float64{1.5, 2.5} {", n)
+		g.line(ind+1, "emitf(%d, %s)", t, n)
+		g.line(ind+1, "%s := %d", n, g.r.Range(5, 9))
+		g.line(ind+1, "emit(%d, %s/4, %s%%4)", t, n, n)
+		g.line(ind, "}")
+	case 1:
+		g.line(ind, "for _, %s := range []byte{250, 251} {", n)
+		g.line(ind+1, "emit(%d, int(%s), 0)", t, n)
+		g.line(ind+1, "%s := 300", n)
+		g.line(ind+1, "%s += 20", n)
+		g.line(ind+1, "emit(%d, %s, %s+%s)", t, n, n, n)
+		g.line(ind, "}")
+	case 2:
+		g.line(ind, "for %s := 0.5; %s < 2; %s++ {", n, n, n)
+		g.line(ind+1, "%s := 7", n)
+		g.line(ind+1, "emit(%d, %s/2, %s*3/2)", t, n, n)
+		g.line(ind, "}")
+	case 3:
+		g.line(ind, "if %s := 2.5; %s > %d {", n, n, g.r.Range(1, 3))
+		g.line(ind+1, "%s := 7", n)
+		g.line(ind+1, "emit(%d, %s/2, 1)", t, n)
+		g.line(ind, "} else {")
+		g.line(ind+1, "%s := 9", n)
+		g.line(ind+1, "emit(%d, %s/2, 2)", t, n)
+		g.line(ind, "}")
+	case 4:
+		g.line(ind, "func(%s float64) {", n)
+		g.line(ind+1, "if %s > 1 {", n)
+		g.line(ind+2, "%s := 9", n)
+		g.line(ind+2, "emit(%d, %s/2, 0)", t, n)
+		g.line(ind+1, "}")
+		g.line(ind+1, "emitf(%d, %s/2)", t, n)
+		g.line(ind, "}(3)")
+	case 5:
+		g.line(ind, "for %s := range []int{4, 5} {", n)
+		g.line(ind+1, "emit(%d, %s, 0)", t, n)
+		g.line(ind+1, "%s := 2.5", n)
+		g.line(ind+1, "emitf(%d, %s*3)", t, n)
+		g.line(ind, "}")
+	case 6:
+		g.line(ind, "for _, %s := range []uint32{4000000000} {", n)
+		g.line(ind+1, "if %s > 5 {", n)
+		g.line(ind+2, "%s := 2000000000", n)
+		g.line(ind+2, "%s += 100000000", n)
+		g.line(ind+2, "emit(%d, %s, %s/3)", t, n, n)
+		g.line(ind+1, "}")
+		g.line(ind, "}")
+	default:
+		g.line(ind, "for _, %s := range []string{\"ab\", \"c\"} {", n)
+		g.line(ind+1, "%s := len(%s) * 10", n, n)
+		g.line(ind+1, "emit(%d, %s, %s/4)", t, n, n)
+		g.line(ind, "}")
+	}
 }
 
 func (g *scGen) block(ind, depth int) {
@@ -281,6 +349,9 @@ func c08Case(seed int64, idx int) packedCase {
 	}
 	g.emit(1)
 	g.block(1, 0)
+	if g.r.Chance(1, 3) {
+		g.typedSegment(1)
+	}
 	g.emit(1)
 	g.pop()
 	decl := fmt.Sprintf("func %s(%s) {\n%s}\n", id, params, g.sb.String())
@@ -298,7 +369,7 @@ func c08Case(seed int64, idx int) packedCase {
 var c08Budget = core.Budget{MaxSteps: 100000, MaxDepth: 200, MaxLen: 1 << 12, MaxOut: 1 << 18}
 
 func runC08(r *core.Run) {
-	r.SetRule("scope-tree functions over the names x and y (package globals, optionally also parameters): := / var / x, y := declarations (new, shadowing, mixed redeclaration), assignments (also parallel ones whose targets resolve to a local and a global), function literals with parameters named like the outer names, if with and without init, for with a loop variable from the name set, per-iteration body variables, range with key/value from the name set, switch clauses; both names are printed after every declaration, assignment and block end, and the globals after the call; plus two-package programs in which parameters, locals, block-level variables, loop and range variables, switch-clause and if-init variables are named like an imported package (or its alias, or fmt), with stores, compound assignments and ++ through them and uses of the package before and after the block. non-trivial = accepted by Go and at least 5 emits executed; distinct by function text")
+	r.SetRule("scope-tree functions over the names x and y (package globals, optionally also parameters): := / var / x, y := declarations (new, shadowing, mixed redeclaration), assignments (also parallel ones whose targets resolve to a local and a global), function literals with parameters named like the outer names, if with and without init, for with a loop variable from the name set, per-iteration body variables, range with key/value from the name set, switch clauses; both names are printed after every declaration, assignment and block end, and the globals after the call; plus two-package programs in which parameters, locals, block-level variables, loop and range variables, switch-clause and if-init variables are named like an imported package (or its alias, or fmt), with stores, compound assignments and ++ through them and uses of the package before and after the block, the package assigning to its own variables with = and a parallel assignment; plus segments in which a loop, range, init variable or parameter of type float64 / byte / uint32 / string is declared again in the body from a constant of another type. non-trivial = accepted by Go and at least 5 emits executed; distinct by function text")
 	r.Assume("Go toolchain (GOARCH=386) as the reference")
 	n := r.N(4000, 80000)
 	cases := make([]packedCase, n)
@@ -350,7 +421,7 @@ func c08PkgCase(seed int64, idx int) core.RefCase {
 	dir := root + fmt.Sprintf("/cmd%06d", idx)
 	fld := core.Pick(rng, []string{"Count", "N", "Total"})
 	var lib strings.Builder
-	fmt.Fprintf(&lib, "package util\n\nvar %s = %d\nvar Other = %d\n\nfunc Inc() int {\n\t%s++\n\treturn %s\n}\n\nfunc Get() int {\n\treturn %s * 2\n}\n", fld, rng.Intn(50), rng.Intn(50), fld, fld, fld)
+	fmt.Fprintf(&lib, "package util\n\nvar %s = %d\nvar Other = %d\n\nfunc Inc() int {\n\t%s++\n\treturn %s\n}\n\nfunc Get() int {\n\treturn %s * 2\n}\n\nfunc Set(n int) int {\n\t%s = n\n\tOther = %s + 1\n\treturn %s + Other\n}\n\nfunc Swap() {\n\tif Other > 0 {\n\t\told := %s\n\t\t%s, Other = Other, old\n\t}\n}\n", fld, rng.Intn(50), rng.Intn(50), fld, fld, fld, fld, fld, fld, fld, fld)
 	alias := "util"
 	imp := fmt.Sprintf("\t\"%s/util\"\n", root)
 	if rng.Bool() {
@@ -395,7 +466,8 @@ func c08PkgCase(seed int64, idx int) core.RefCase {
 	for _, cl := range calls {
 		fmt.Fprintf(&sb, "\tfmt.Println(%q, %s, %s.%s, %s.Other)\n", cl, cl, A, fld, A)
 	}
-	fmt.Fprintf(&sb, "\tfmt.Println(%s.Inc(), %s.Get())\n}\n", A, A)
+	fmt.Fprintf(&sb, "\tfmt.Println(%s.Inc(), %s.Get())\n", A, A)
+	fmt.Fprintf(&sb, "\tfmt.Println(%s.Set(%d))\n\tfmt.Println(%s.%s, %s.Other)\n\tfmt.Println(%s.Get())\n\tfmt.Println(%s.Inc())\n\t%s.Swap()\n\tfmt.Println(%s.%s, %s.Other)\n}\n", A, rng.Intn(90), A, fld, A, A, A, A, A, fld, A)
 	return core.RefCase{Files: map[string]string{root + "/util/util.go": lib.String(), dir + "/main.go": sb.String()}, MainDir: dir}
 }
 
